@@ -12,6 +12,7 @@ Decided on the output grammar with provenance (Engine A), anchored by role in th
     struct, 0 for builtins / no result;
   * vertex helper: one per entry of stage Vertex (buffer count: C07 rule D evaluated in the same run);
   * vertex_state / fragment_state forward module, Some(entry.entry_point), &entry.buffers / &entry.targets and &entry.constants."""
+import re as _re
 import engine_ogp as E
 from conc import Eval, V, Diverge, Unbound
 from rules.c04 import hole_after_seq, ident_fmt
@@ -121,12 +122,16 @@ def run(rep):
                       'the constructor does not use the module\'s own create_shader_module / create_pipeline_layout', ok_detail='module and layout from this module')
         for wt in wts[:1]:
             wtxt = E.tmpl_text(wt)
-            hv = list(E.holes(wt).items())
-            nm = hv[0][1]
+            hd = E.holes(wt)
+            wm = _re.search(r'pub const #(\w+) : \[ u32 ; 3 \] = \[ #(\w+) , #(\w+) , #(\w+) \] ;', wtxt)
+            if not wm:
+                rep.bad('C14.compute', 'workgroup-size', where, f'the workgroup-size constant is not `pub const <NAME>: [u32; 3] = [x, y, z];` ({wtxt[:160]})')
+                continue
+            nm = hd[wm.group(1)]
             okn = nm[0] == 'call' and nm[1] == 'Ident::new' and nm[2][0][0] == 'fmt' and nm[2][0][1] == '{}_WORKGROUP_SIZE' and nm[2][0][2] == [('mcall', ('f', ent, 'name'), 'to_uppercase', [])]
             rep.check(okn, 'C14.compute', 'workgroup-const-name', where, f'the workgroup constant is named {E.show(nm, maxdepth=6)}', ok_detail='<NAME>_WORKGROUP_SIZE')
-            comps = [h for _, h in hv[1:]]
-            ok = len(comps) == 3 and wtxt.endswith('= [ #' + hv[1][0] + ' , #' + hv[2][0] + ' , #' + hv[3][0] + ' ] ;')
+            comps = [hd[wm.group(i)] for i in (2, 3, 4)]
+            ok = True
             for i, c in enumerate(comps):
                 okc = c[0] == 'tf' and c[2] == i and c[1][0] == 'star' and c[1][1] == ('f', ent, 'workgroup_size') and not c[1][4] and \
                     c[1][3][0] == 'call' and c[1][3][1].startswith('Literal::') and c[1][3][1].endswith('unsuffixed') and strip_cast(c[1][3][2][0]) == ('elem', c[1][2], c[1][1])
